@@ -461,23 +461,15 @@ func (r *BucketRing) nowIndex() int {
 	return r.indexSubtract(r.headIndex, 1)
 }
 
-func (r *BucketRing) indexBetween(start, end, target int) bool {
-	if start == end {
-		// No range to check.
-		return false
-	}
-
-	if start < end {
-		// The range is non-wrapping.
-		return target > start && target < end
-	}
-	// The range wraps around.
-	return target > start || target < end
-}
-
 func (r *BucketRing) EmitFlowCollections(sink Sink) {
 	if sink == nil {
 		logrus.Debug("No sink configured, skip flow emission")
+		return
+	}
+
+	if r.bucketsToAggregate < 1 {
+		// A window of zero buckets can never contain a flow (and walking back by zero buckets never ends).
+		logrus.WithField("bucketsToAggregate", r.bucketsToAggregate).Warn("Need at least one bucket per aggregation window, skip flow emission")
 		return
 	}
 
@@ -485,9 +477,13 @@ func (r *BucketRing) EmitFlowCollections(sink Sink) {
 	endIndex := r.indexSubtract(r.nowIndex(), r.pushAfter)
 	startIndex := r.indexSubtract(endIndex, r.bucketsToAggregate)
 
-	// We need to go back through time until we find a flow collection that has already been published.
+	// We need to go back through time until we find a flow collection that has already been published,
+	// or until the next window would no longer fit into the ring. oldest counts how many buckets back
+	// from the head the oldest bucket of the window [startIndex, endIndex) is; the oldest bucket of the
+	// ring is len(buckets)-1 back, so a window with oldest >= len(buckets) would wrap around onto the
+	// head (and newer) buckets and must not be built.
 	collections := []*FlowCollection{}
-	for {
+	for oldest := 1 + r.pushAfter + r.bucketsToAggregate; oldest < len(r.buckets); oldest += r.bucketsToAggregate {
 		c := r.maybeBuildFlowCollection(startIndex, endIndex)
 		if c == nil {
 			logrus.WithFields(logrus.Fields{
@@ -505,11 +501,6 @@ func (r *BucketRing) EmitFlowCollections(sink Sink) {
 		// of the current collection and the start time is another bucketsToAggregate earlier.
 		endIndex = startIndex
 		startIndex = r.indexSubtract(startIndex, r.bucketsToAggregate)
-
-		// Terminate the loop if we've gone through all the buckets.
-		if r.indexBetween(startIndex, endIndex, r.headIndex) {
-			break
-		}
 	}
 
 	// Emit the collections to the sink.
